@@ -124,7 +124,7 @@ class FunctionNode(ConfigDict):
         params = list(sig.parameters.values())
         idx_to_name = []
         for p in params:
-            if p.kind == inspect.Parameter.VAR_POSITIONAL:
+            if p.kind not in (inspect.Parameter.POSITIONAL_ONLY, inspect.Parameter.POSITIONAL_OR_KEYWORD):
                 break
             idx_to_name.append(p.name)
 
